@@ -47,6 +47,10 @@ var Texts = map[string]string{
   grouping sg { leaf sl { type string; } }
   container fromsub { leaf x { type string; } }
 }`,
+	// two revisions of one module and an importer without revision-date: the import must follow the latest loaded
+	"bb-r1": `module bb { namespace "urn:bb"; prefix bb; revision 2020-01-01; grouping g { leaf old { type string; } } }`,
+	"bb-r2": `module bb { namespace "urn:bb"; prefix bb; revision 2021-01-01; grouping g { leaf new { type string; } } }`,
+	"ib": `module ib { namespace "urn:ib"; prefix ib; import bb { prefix bb; } container c { uses bb:g; } }`,
 	// accepted by the loader, rejected by Process: the errors must come back on every run
 	"e5": `module e5 { namespace "urn:e5"; prefix e5;
   typedef small { type int8 { range "1..500"; } }
@@ -54,6 +58,13 @@ var Texts = map[string]string{
   leaf worse { type string { length "5..1"; } }
   leaf fine { type string; }
 }`,
+	// a second text for the module name t2, with a typedef that does not resolve: refused by the set when t2 is loaded
+	"t2c": `module t2 { namespace "urn:t2"; prefix t2;
+  typedef broken { type nosuch; }
+  container c { leaf third { type string; } }
+}`,
+	// builds as a grouping node, refused by the set because it is not a module
+	"x-top-level-grouping": `grouping g { typedef broken2 { type nosuch; } leaf l { type string; } }`,
 	"x-syntax": `module xs { namespace "urn:xs"; prefix xs; container c { leaf l { type string; }`,
 	"x-typedefs-then-rejected": `module xt { namespace "urn:xt"; prefix xt;
   container c { typedef tt { type nosuch; } typedef ok { type string; } }
